@@ -119,6 +119,27 @@ def check_lookahead(prog, rep, rule):
     fl = {fi: True} if fi is not None else None
     where = f"{m.fn.file}:{m.fn.line}"
     temporal = {"X": ("Unary", "{q}X"), "F": ("Unary", "{q}F"), "G": ("Unary", "{q}G"), "U": ("Binary", "{q}U"), "W": ("Binary", "{q}W")}
+    # the name of a proposition token is made of exactly the characters that were read: those consumed before the rest of the name
+    # is collected (the prefix), followed by the collected rest - nothing dropped, nothing added
+    import render
+    problems = []
+    n_names = 0
+    for w in (["q"], ["3", "a"], ["V", "_"], ["E", "X", "a"], ["E", "U", "_"], ["A", "X", "a"], ["A", "G", "7"], ["A", "W", "b"], ["E", "F", "Z"]):
+        for k, t, r in m.decide(w, fl):
+            if k != "token" or T.token_kind(t) != ("Atom", "Prop"):
+                continue
+            name = t[2][0][2][0] if t[0] == "ctor" and t[2] and t[2][0][0] == "ctor" and t[2][0][2] else None
+            if name is None:
+                continue
+            n_names += 1
+            pieces = render.string_pieces(name)
+            lit = "".join(p_ for p_ in pieces if isinstance(p_, str))
+            rest = [p_ for p_ in pieces if not isinstance(p_, str)]
+            want = "".join(w[:-1]) if len(w) > 1 else w[0]
+            if lit != want or len(rest) != 1 or (pieces and not isinstance(pieces[0], str)):
+                problems.append(f"input `{''.join(w)}..` gives a proposition named `{lit}`+<rest> (expected `{want}`+<rest>)")
+    rep.check(not problems and n_names >= 6, rule, "names/content", where, "a proposition's name is the consumed prefix followed by the collected rest",
+              "; ".join(problems[:3]) if problems else f"only {n_names} proposition tokens could be examined")
     for qch in ("E", "A"):
         problems = []
         for t, (kind, var) in temporal.items():
